@@ -306,6 +306,19 @@ func (r *Run) routingProbes(st *refState) []Req {
 	for h := range st.tls {
 		hosts[h] = true
 	}
+	// hosts that were declared earlier in the run and are gone: their requests fall to the default host
+	if r.seenHosts == nil {
+		r.seenHosts = map[string]bool{}
+	}
+	for h := range r.seenHosts {
+		if !hosts[h] {
+			r.probe("removed_host_probed")
+		}
+		hosts[h] = true
+	}
+	for h := range hosts {
+		r.seenHosts[h] = true
+	}
 	var out []Req
 	for _, h := range sortedKeys(hosts) {
 		for _, p := range sortedKeys(paths) {
